@@ -160,6 +160,14 @@ def _exec_in_child(check, spec):
     return res
 
 
+def _dump_known(f, fkey):
+    # survey aid (VERIF_DUMP_KNOWN=file): which concrete classes a family entry absorbed
+    p = os.environ.get("VERIF_DUMP_KNOWN")
+    if p:
+        with open(p, "a") as fh:
+            fh.write("%s\t%s\n" % (f["key"], fkey))
+
+
 # ----------------------------------------------------------------------------- known findings
 def load_findings(pid):
     path = os.path.join(VERIF, "KNOWN_FINDINGS.jsonl")
@@ -301,6 +309,7 @@ def main(check_cls):
             f = finding_for(findings, fkey)
             if f:
                 known_hit[f["key"]] += 1
+                _dump_known(f, fkey)
             continue
         # gate 1: the same spec in a fresh process must give the same execution and the same class
         again = _exec_in_child(check, spec)
@@ -331,6 +340,7 @@ def main(check_cls):
         f = finding_for(findings, fkey)
         if f:
             known_hit[f["key"]] += 1
+            _dump_known(f, fkey)
             if f["key"] not in reported:
                 reported[f["key"]] = 1
                 print("KNOWN-FINDING: property=%s %s [%s] (e.g. run %d: %s)" %
